@@ -241,6 +241,10 @@ func (c13Prop) Gen(t *Tape, ph *PhaseCfg) Case {
 	}
 	c.Argv = argv
 	root := &CmdDecl{Name: "app", Spec: spec, Decls: []*Decl{d}, Action: CB{Kind: CBReturn}}
+	if t.Draw(5) == 0 {
+		// sub-commands that are never addressed, declared with an alias list as a help text prints it
+		root.Subs = []*CmdDecl{{Name: []string{"start , run", "stop,", ", ls", "up  down"}[t.Draw(4)], Desc: "never addressed", Action: CB{Kind: CBReturn}}}
+	}
 	c.App = &AppDecl{Root: root, Policy: flag.ContinueOnError}
 	c.App.Finish()
 	return c
